@@ -538,4 +538,4 @@ def run(ctx, replay=None):
                    {"stage": "correspondence", "correspondence": "Model/K17_LOTglue.v <-> lot_vectors_*_internal",
                     "case": item, "model": mrow, "actual": r["out"]}, found_input=False)
     C.gate_violation(ctx)
-    return ctx.finish("proof+oracle")
+    return ctx.finish("proof")
